@@ -68,6 +68,11 @@ mod utils;
 
 pub mod support;
 
+#[cfg(recmo_uint_verif)]
+#[doc(hidden)]
+#[path = "verif_hooks.rs"]
+pub mod __verif;
+
 #[doc(inline)]
 pub use bit_arr::Bits;
 
